@@ -1,0 +1,31 @@
+//go:build verif
+
+package fzf
+
+import (
+	"sync"
+
+	"github.com/junegunn/fzf/src/util"
+)
+
+// Verification hooks (build tag verif): thin exported wrappers around the
+// unexported walker of reader.go. No logic: a Reader is built the way
+// reader_test.go builds one, its pusher collects the items (under a lock,
+// fastwalk calls back from several goroutines).
+
+func VerifReadFiles(roots []string, file bool, dir bool, follow bool, hidden bool, ignores []string) ([]string, bool) {
+	var mu sync.Mutex
+	items := []string{}
+	reader := NewReader(
+		func(b []byte) bool {
+			mu.Lock()
+			items = append(items, string(b))
+			mu.Unlock()
+			return true
+		},
+		util.NewEventBox(), util.NewExecutor(""), false, false)
+	ok := reader.readFiles(roots, walkerOpts{file: file, dir: dir, follow: follow, hidden: hidden}, ignores)
+	return items, ok
+}
+
+func VerifTrimPath(path string) string { return trimPath(path) }
